@@ -549,6 +549,10 @@ class Elab(object):
         if name == "-" and n >= 2:
             return self.left_assoc("MINUS", a)
         if name == "/" and n >= 2:
+            if all(x[0] == "CONST" and x[1][0] == INT for x in a):
+                # (/ m n) over numerals is the customary spelling of a rational constant also where numerals
+                # are of sort Int (the mixed-arithmetic logics describe it as an abbreviation)
+                a = [self.mk("TOREAL", x) for x in a]
             return self.left_assoc("REAL_DIV", a)
         if name == "div" and n >= 2:
             return self.left_assoc("INT_DIV", a)
